@@ -125,6 +125,11 @@ def run(job):
                     pairs.append((first, len(pool) - 1))
                 except (R.RefError, KeyError):
                     pass
+    # messages that violate a section expectation (damaged stop signature): their fresh-process result is the library error, and must stay so
+    for i in range(min(4, len(pool))):
+        d = pool[rng.randrange(len(pool))]
+        if d.endswith(b'7777'):
+            pool.append(d[:-1] + b'8')
     loc = local_messages(rng)
     for k in range(0, len(loc) - 1, 2):
         pairs.append((len(pool) + k, len(pool) + k + 1))
@@ -183,6 +188,9 @@ def run(job):
                     kept[i] = r[1]
             elif op < 0.65:
                 safe(rng.choice(decoders).process, pool[i][: max(8, len(pool[i]) // 2)])      # a failing decode
+            elif op < 0.72:
+                # a decode in one of the other public modes (metadata only / lenient about expected values / no wiring): history only
+                safe(rng.choice(decoders).process, pool[i], '<s>', b'BUFR', rng.random() < 0.5, rng.random() < 0.7, rng.random() < 0.5)
             elif op < 0.8 and kept:
                 j = rng.choice(list(kept))
                 safe(lambda: NestedTextRenderer().render(kept[j]))
